@@ -17,6 +17,7 @@ import shutil
 import subprocess
 import sys
 import tempfile
+import threading
 import time
 
 VERIF = os.path.dirname(os.path.dirname(os.path.abspath(__file__)))
@@ -117,22 +118,31 @@ def backend_configs():
 # scratch handling
 
 _SCRATCH = None
+_SCRATCH_LOCK = threading.Lock()
 
 
 def scratch():
     global _SCRATCH
-    if _SCRATCH is None:
-        base = os.environ.get("VERIF_SCRATCH_BASE", tempfile.gettempdir())
-        _SCRATCH = tempfile.mkdtemp(prefix="asconverif-", dir=base)
-        atexit.register(cleanup)
-    return _SCRATCH
+    with _SCRATCH_LOCK:
+        if _SCRATCH is None:
+            base = os.environ.get("VERIF_SCRATCH_BASE", tempfile.gettempdir())
+            _SCRATCH = tempfile.mkdtemp(prefix="asconverif-", dir=base)
+            atexit.register(cleanup)
+        return _SCRATCH
 
 
 def cleanup():
     global _SCRATCH
-    if _SCRATCH and os.path.isdir(_SCRATCH):
-        shutil.rmtree(_SCRATCH, ignore_errors=True)
+    d = _SCRATCH
     _SCRATCH = None
+    for attempt in range(10):
+        if not d or not os.path.isdir(d):
+            break
+        shutil.rmtree(d, ignore_errors=True)
+        if os.path.isdir(d):
+            time.sleep(0.3)      # a child process may still be writing
+    if d and os.path.isdir(d):
+        subprocess.run(["rm", "-rf", d])
 
 
 def run(cmd, cwd=None, timeout=600, check=True, env=None, stdin=None):
@@ -261,7 +271,10 @@ def configure(cfg):
 def configure_many(cfgs):
     todo = [c for c in cfgs if c.name not in _BUILDS]
     with cf.ThreadPoolExecutor(max_workers=JOBS) as ex:
-        list(ex.map(configure, todo))
+        futs = [ex.submit(configure, c) for c in todo]
+        cf.wait(futs)             # let every cmake finish before an error propagates
+    for f in futs:
+        f.result()
     return [configure(c) for c in cfgs]
 
 
@@ -355,7 +368,8 @@ def lower_many(jobs):
     """jobs: list of (build, kwargs).  Runs lowerings concurrently."""
     with cf.ThreadPoolExecutor(max_workers=max(1, min(4, len(jobs)))) as ex:
         futs = [ex.submit(lower, b, **kw) for b, kw in jobs]
-        return [f.result() for f in futs]
+        cf.wait(futs)
+    return [f.result() for f in futs]
 
 
 def preprocess(unit, extra=(), linemarkers=True):
